@@ -29,6 +29,11 @@ type C12Case struct {
 	// HoldMs is how long the attached shell sits idle after the listener closed
 	// before it is used again: "keeps working undisturbed" has no time limit.
 	HoldMs int `json:"hold_ms,omitempty"`
+	// OchCap / StallAtAttach: the operator queue is small and the terminal is
+	// not taking lines (it is full of the shell's early output) at the moment
+	// the shell becomes fully attached (arrival out-in only).
+	OchCap        int  `json:"och_cap,omitempty"`
+	StallAtAttach bool `json:"stall_at_attach,omitempty"`
 }
 
 func probe(addr string) bool {
@@ -42,7 +47,7 @@ func probe(addr string) bool {
 
 func runC12(t testing.TB, c C12Case) (key, what string, classes map[string]int) {
 	classes = map[string]int{}
-	s, err := Start(Cfg{Listen: "127.0.0.1:0", OneShell: true})
+	s, err := Start(Cfg{Listen: "127.0.0.1:0", OneShell: true, OchCap: c.OchCap})
 	if err != nil {
 		panic(err)
 	}
@@ -139,8 +144,21 @@ func runC12(t testing.TB, c C12Case) (key, what string, classes map[string]int) 
 		if k, w := mustAccept("half attached (output only)"); k != "" {
 			return k, w, classes
 		}
+		if c.StallAtAttach {
+			// fill the operator queue with output nobody takes, then attach
+			s.Stall()
+			for i := 0; i < max(c.OchCap, 0)+6; i++ {
+				send(fmt.Sprintf("<stalled-%d>", i))
+				time.Sleep(2 * time.Millisecond)
+			}
+			classes["terminal-full-when-shell-attaches"]++
+		}
 		if ic, err = s.OpenIn("/i/theshell", "h"); err != nil {
 			return "HARNESS", err.Error(), classes
+		}
+		if c.StallAtAttach {
+			time.Sleep(150 * time.Millisecond)
+			s.Resume()
 		}
 	case "io":
 		ioc, err := s.OpenIO("/io", "h")
@@ -317,6 +335,10 @@ func genC12() *rapid.Generator[C12Case] {
 			holds = append(holds, 0, 0, 0, 0, 0, 0, 0, 0, 0, 6500, 12000, 31000)
 		}
 		c.HoldMs = rapid.SampledFrom(holds).Draw(t, "hold")
+		if c.Arrival == "out-in" && rapid.IntRange(0, 2).Draw(t, "stall") == 0 {
+			c.StallAtAttach = true
+			c.OchCap = rapid.SampledFrom([]int{-1, 1, 4}).Draw(t, "ochcap")
+		}
 		for i := rapid.IntRange(0, 4).Draw(t, "npre"); i > 0; i-- {
 			c.Pre = append(c.Pre, rapid.SampledFrom([]string{"half-in-dies", "half-out-dies", "empty-id", "file", "script"}).Draw(t, "pre"))
 		}
